@@ -514,8 +514,28 @@ type derivedCase struct {
 }
 
 func genDerived(t *rapid.T) derivedCase {
-	c := derivedCase{Kind: rapid.SampledFrom([]string{"profile", "profile", "collider", "transform", "xcollider", "collider2", "transform2", "xcollider2"}).Draw(t, "kind")}
+	c := derivedCase{Kind: rapid.SampledFrom([]string{"profile", "profile", "collider", "transform", "xcollider", "collider2", "transform2", "xcollider2", "tridist"}).Draw(t, "kind")}
 	switch c.Kind {
+	case "tridist":
+		// Pts[0..2]: a triangle, possibly of zero area (a segment spelled {a, b, b}, three colinear points);
+		// Pts[3:]: query points
+		a, b := gen.Vec3(t, 3, "a"), gen.Vec3(t, 3, "b")
+		d := gen.Vec3(t, 3, "c")
+		switch rapid.IntRange(0, 5).Draw(t, "degenerate") {
+		case 0:
+			d = b
+		case 1:
+			d = a
+		case 2:
+			b = a
+		case 3:
+			d = a.Add(b.Sub(a).Scale(float64(rapid.IntRange(-2, 3).Draw(t, "along"))))
+		}
+		c.Pts = []kit.V3{a, b, d}
+		for i := 0; i < 8; i++ {
+			c.Pts = append(c.Pts, a.Mid(b).Add(gen.Vec3(t, 4, "q")))
+		}
+		c.Pts = append(c.Pts, a, b.Mid(d))
 	case "collider2", "transform2", "xcollider2":
 		s := gen.Shape2Gen(t, gen.AllKinds2, 1, 5, "s2")
 		c.S2 = &s
@@ -597,6 +617,38 @@ func checkDerived(c derivedCase, o *kit.Obs) error {
 			if !onCap && !onSide {
 				return fmt.Errorf("ProfilePointSDF(%+v, z=%v).PointSDF(%v) returned %v which is not on the boundary", s2, c.Z, p, pt)
 			}
+		}
+	case "tridist":
+		a, b, d := c.Pts[0], c.Pts[1], c.Pts[2]
+		if a == b && b == d {
+			o.Skip("a point")
+			return nil
+		}
+		tri := &model3d.Triangle{m3.C3(a), m3.C3(b), m3.C3(d)}
+		flat := b.Sub(a).Cross(d.Sub(a)).Norm() == 0
+		if flat {
+			o.Label("triangle:zero-area")
+		}
+		segDist := func(p, u, v kit.V3) float64 {
+			e := v.Sub(u)
+			if e.Dot(e) == 0 {
+				return p.Dist(u)
+			}
+			tt := math.Max(0, math.Min(1, p.Sub(u).Dot(e)/e.Dot(e)))
+			return p.Dist(u.Add(e.Scale(tt)))
+		}
+		for _, p := range c.Pts[3:] {
+			want := math.Min(segDist(p, a, b), math.Min(segDist(p, b, d), segDist(p, d, a)))
+			if !flat {
+				if dd, _ := kit.PointTriDist(p, kit.Tri{a, b, d}); dd < want {
+					want = dd
+				}
+			}
+			got := tri.Dist(m3.C3(p))
+			if !(math.Abs(got-want) <= 1e-9*(1+want+a.MaxAbs()+b.MaxAbs()+d.MaxAbs())) {
+				return fmt.Errorf("Triangle{%v, %v, %v}.Dist(%v) = %v, the nearest point of the triangle (its edges%s) is %v away", a, b, d, p, got, map[bool]string{true: " only: it has no area", false: " and interior"}[flat], want)
+			}
+			o.NonTrivial()
 		}
 	case "collider2", "transform2", "xcollider2":
 		s := *c.S2
